@@ -128,6 +128,109 @@ def run(ctx):
             if not ok:
                 ctx.tie_fail(name + " vs model: " + why, desc, str(impl[1])[:300], str(m)[:300])
     relations(ctx)
+    conditioning(ctx)
+    label_oracle(ctx)
+    pandas_api(ctx)
+
+
+def conditioning(ctx):
+    """the documented formula "evaluated in exact arithmetic": series with a large common offset (temperatures in K,
+    pressures in Pa: |mean| / std up to 1e6) against an independent exact oracle in Python rationals. A formula that is
+    algebraically equal but cancels (E[x^2] - E[x]^2) departs from the exact value by ~1e-4 here; the two-pass formulas stay
+    within ~1e-10."""
+    from fractions import Fraction as Fr
+    import math
+    S = scorelib.S()
+    rng = ctx.rng
+
+    def fmean(l):
+        return sum(l) / len(l)
+
+    for _ in range(ctx.n(12, 120)):
+        n = rng.randint(3, 8)
+        K = rng.choice([10000.0, 101325.0, 1e6, float(2 ** 20), 273.0])
+        xf = [K + gens.grid_value(rng) for _ in range(n)]
+        xo = [K + gens.grid_value(rng) for _ in range(n)]
+        if len(set(xf)) < 2 or len(set(xo)) < 2:
+            continue
+        F, O = [Fr(v) for v in xf], [Fr(v) for v in xo]
+        mf, mo = fmean(F), fmean(O)
+        vf, vo = fmean([(a - mf) ** 2 for a in F]), fmean([(b - mo) ** 2 for b in O])
+        cov = fmean([(a - mf) * (b - mo) for a, b in zip(F, O)])
+        rho = float(cov) / math.sqrt(float(vf) * float(vo))
+        alpha = math.sqrt(float(vf / vo))
+        beta = float(mf / mo)
+        want = {"rho": rho, "alpha": alpha, "beta": beta, "kge": 1 - math.sqrt((rho - 1) ** 2 + (alpha - 1) ** 2 + (beta - 1) ** 2)}
+        f, o = xr.DataArray(xf, dims="t"), xr.DataArray(xo, dims="t")
+        desc = {"fcst": xf, "obs": xo, "offset": K}
+        ctx.case(("conditioning", tuple(xf), tuple(xo)))
+        ctx.count("conditioning")
+        k = core.call_impl(S.continuous.kge, f, o, include_components=True)
+        if k[0] != "ok":
+            ctx.violation(f"kge raises {k[1]} on a series with a large offset", desc, "values", k[1])
+        else:
+            for v, w_ in want.items():
+                got = float(k[1][v])
+                if not abs(got - w_) <= 1e-6 * max(1.0, abs(w_)):
+                    ctx.violation(f"kge component {v} = {got!r} differs from the documented formula in exact arithmetic ({w_!r}) on a series with offset {K}",
+                                  desc, w_, got)
+        from scores.continuous.correlation import pearsonr
+        r = core.call_impl(pearsonr, f, o)
+        if r[0] == "ok" and not abs(float(r[1]) - rho) <= 1e-6:
+            ctx.violation(f"pearsonr = {float(r[1])!r} differs from the exact correlation {rho!r} on a series with offset {K}", desc, rho, float(r[1]))
+        kk = core.call_impl(S.continuous.kge, f, f)
+        if kk[0] == "ok" and not abs(float(kk[1]) - 1) <= 1e-6:
+            ctx.violation(f"kge(x, x) = {float(kk[1])!r}, not 1, on a series with offset {K}", {"x": xf}, 1, float(kk[1]))
+        for nm, wv in (("mse", float(fmean([(a - b) ** 2 for a, b in zip(F, O)]))), ("mae", float(fmean([abs(a - b) for a, b in zip(F, O)]))),
+                       ("additive_bias", float(mf - mo)), ("multiplicative_bias", float(mf / mo)), ("pbias", float(100 * (mf - mo) / mo))):
+            g = core.call_impl(getattr(S.continuous, nm), f, o)
+            if g[0] != "ok" or not abs(float(g[1]) - wv) <= 1e-7 * max(1.0, abs(wv)):
+                ctx.violation(f"{nm} = {g[1] if g[0] != 'ok' else float(g[1])!r} differs from the exact value {wv!r} on a series with offset {K}", desc, wv, str(g[1])[:60])
+
+
+def label_oracle(ctx):
+    """model-free oracle: 1-D series whose observation stores the shared coordinate in another order (and has labels
+    the forecast lacks); cases are paired by label and the documented formula is evaluated in Python rationals"""
+    from fractions import Fraction as Fr
+    S = scorelib.S()
+    C = S.continuous
+    rng = ctx.rng
+    for _ in range(ctx.n(20, 200)):
+        n = rng.randint(2, 6)
+        labs = rng.sample(range(10), n)
+        fv = {l: gens.grid_value(rng) for l in labs}
+        olabs = rng.sample(labs, n) if rng.random() < 0.7 else rng.sample(labs, n - 1) + [11]
+        ov = {l: (gens.grid_value(rng) if rng.random() > 0.15 else float("nan")) for l in olabs}
+        f = xr.DataArray([fv[l] for l in labs], dims="t", coords={"t": labs})
+        o = xr.DataArray([ov[l] for l in olabs], dims="t", coords={"t": olabs})
+        pairs = [(Fr(fv[l]), Fr(ov[l])) for l in labs if l in ov and ov[l] == ov[l]]
+        alpha = rng.choice([0.1, 0.25, 0.5, 0.75])
+        desc = {"fcst": gens.da_repr(f), "obs": gens.da_repr(o), "alpha": alpha}
+        ctx.case(("label-oracle", desc["fcst"], desc["obs"], alpha))
+        ctx.count("label_oracle")
+        if not pairs:
+            continue
+        m = len(pairs)
+        a_ = Fr(alpha)
+        sf, so = sum(p[0] for p in pairs), sum(p[1] for p in pairs)
+        want = {"mse": sum((a - b) ** 2 for a, b in pairs) / m, "mae": sum(abs(a - b) for a, b in pairs) / m, "additive_bias": (sf - so) / m,
+                "quantile_score": sum(((1 - a_) * (a - b) if a > b else a_ * (b - a)) for a, b in pairs) / m}
+        if so != 0:
+            want["multiplicative_bias"] = sf / so
+            want["pbias"] = 100 * (sf - so) / so
+        for nm, wv in want.items():
+            fn = getattr(C, nm)
+            g = core.call_impl(fn, f, o, alpha=alpha) if nm == "quantile_score" else core.call_impl(fn, f, o)
+            if g[0] != "ok" or not abs(float(g[1]) - float(wv)) <= 1e-9 * max(1.0, abs(float(wv))):
+                ctx.violation(f"{nm} = {g[1] if g[0] != 'ok' else float(g[1])!r} differs from the documented formula on the label-paired valid cases ({float(wv)!r})",
+                              desc, float(wv), str(g[1])[:60])
+
+
+def run_without_model(ctx):
+    """the regenerated kernels do not build against the current source: oracles and relations that need no model"""
+    label_oracle(ctx)
+    relations(ctx)
+    conditioning(ctx)
     pandas_api(ctx)
 
 
